@@ -192,6 +192,12 @@ func (c *clientProcessRunner) consumeOutput() {
 			go func() {
 				_, _ = io.Copy(io.Discard, c.proc.stdout)
 			}()
+		} else {
+			// The client's output ended cleanly, so it is expected to be gone
+			// (or going). If it lingers without reading its stdin, a sender
+			// blocked in a write holds sendMu and closeSend below would wait
+			// for it forever; ending the process releases that sender.
+			c.proc.abort()
 		}
 		c.closeSend() // stop the send side now that we're done with receive side
 
